@@ -151,6 +151,22 @@ fn spec(ctx: &mut Ctx) {
                 let d: Vec<&str> = diff(&a, &v).into_iter().filter(|f| matches!(*f, "matched" | "important" | "exception")).collect();
                 let h = fnv(&format!("{:?}|{:?}|{}|{}|{}", rules, tags, q.url, q.source, q.rtype));
                 if d.is_empty() {
+                    // the same precedence through the multi-engine entry point
+                    for (prev, force) in [(true, false), (true, true), (false, true)] {
+                        let s = e.check_network_request_subset(&rq, prev, force);
+                        let want = v.with_flags(prev, force, rq.is_supported);
+                        if (s.matched, s.important, s.exception.is_some()) != want {
+                            evs.push((
+                                Some("C04:precedence:subset-entry-point".to_string()),
+                                nt,
+                                h,
+                                json!({"rules": rules, "tags": tags, "url": q.url, "source": q.source, "type": q.rtype, "optimize": optimize,
+                                    "previously_matched_rule": prev, "force_check_exceptions": force,
+                                    "engine": {"matched": s.matched, "important": s.important, "exception": s.exception},
+                                    "reference": {"matched": want.0, "important": want.1, "exception": want.2}}),
+                            ));
+                        }
+                    }
                     evs.push((None, nt, h, json!({"rules": rules, "tags": tags, "url": q.url, "source": q.source, "type": q.rtype, "verdict": a.to_json(), "matching_rules": v.hits})));
                 } else {
                     let min = minimize_rules(&rules, |cand| {
